@@ -48,7 +48,11 @@ func c20Eff(k int) int {
 
 func c20Htpasswd(k int) string {
 	if c20Bad(k) {
-		switch (k / 3) % 3 {
+		switch (k / 3) % 4 {
+		case 3:
+			// a stray double quote at the START of a password field in the middle of the file (round 8): a csv parse error; a
+			// lenient reader would swallow the rest of the file into that field and load a map that is neither old nor new
+			return "always:" + vfHtpasswdSHA("always-pw") + "\nquoted:\"" + vfHtpasswdSHA("q") + "\nafter-a:" + vfHtpasswdSHA("a") + "\nafter-b:" + vfHtpasswdSHA("b") + "\n"
 		case 0:
 			return "always:" + vfHtpasswdSHA("always-pw") + "\nbroken:record:with:fields\n"
 		case 1:
